@@ -21,7 +21,33 @@ pub struct Case {
 
 pub fn gen_case(tape: &[u8]) -> Case {
     let mut t = Tape::new(tape);
-    match t.weighted(&[14, 2, 4]) {
+    match t.weighted(&[14, 2, 4, 3]) {
+        3 => {
+            // option areas (TCP options / NDP options) with lying length bytes, standalone or as the
+            // option area of a TCP header / ICMPv6 neighbor solicitation that ends with the input
+            let (area, is_tcp) = gen_tlv_area(&mut t);
+            let bytes = if t.bool() {
+                area
+            } else if is_tcp {
+                let mut a = area;
+                a.truncate(40);
+                while a.len() % 4 != 0 {
+                    a.push(if t.bool() { 0 } else { 1 });
+                }
+                let mut h = t.bytes(12);
+                h.push((((5 + a.len() / 4) as u8) << 4) | (t.u8() & 1));
+                h.extend(t.bytes(7));
+                h.extend(a);
+                h
+            } else {
+                // ICMPv6 neighbor solicitation: 8 byte header + 16 byte target + options
+                let mut h = vec![135u8, 0];
+                h.extend(t.bytes(22));
+                h.extend(area);
+                h
+            };
+            Case { start: Start::EtherType(t.u16()), bytes, ranges: vec![0], layers: vec![if is_tcp { "tcp-options".into() } else { "ndp-options".into() }], perturb: vec!["tlv".into()], kind: "tlv-area" }
+        }
         1 => {
             // every truncation point of golden packets
             let g = golden();
